@@ -414,8 +414,9 @@ pub fn run_c15(cfg: &Config) -> i32 {
 						churn(rng, x)
 					}
 					for _ in 0..rng.below(4) {
-						match rng.below(4) {
+						match rng.below(5) {
 							0 | 1 => o.sort(),
+							4 => o.canonicalize(),
 							2 => {
 								// remove an entry and push it back (changes the order, not the content)
 								if !o.is_empty() {
@@ -451,8 +452,14 @@ pub fn run_c15(cfg: &Config) -> i32 {
 			let mut a = from_rval(&ra);
 			churn(&mut rng, &mut a);
 			let ra2 = to_rval(&a);
-			let rb = if rng.chance(2, 3) { shuffle_deep(&mut rng, &ra) } else { mutate_once(&mut rng, &ra) };
-			let b = from_rval(&rb);
+			let rb = if rng.chance(2, 3) { shuffle_deep(&mut rng, &ra2) } else { mutate_once(&mut rng, &ra2) };
+			let mut b = from_rval(&rb);
+			// half of the time the other operand has a history of its own (both sorted, one sorted and one
+			// canonicalized, ...)
+			if rng.chance(1, 2) {
+				churn(&mut rng, &mut b);
+			}
+			let rb = to_rval(&b);
 			let want = nf(&ra2) == nf(&rb);
 			rep.distinct_hash(fnv(format!("{}|{}", doc_of(&ra2), doc_of(&rb)).as_bytes()));
 			c15_pair(&mut rep, "operands-through-object-operations", &ra2, &rb, &a, &b, want, true);
@@ -465,7 +472,7 @@ pub fn run_c15(cfg: &Config) -> i32 {
 		cfg,
 		EvidenceMeta {
 			id: "C15",
-			rule: "a case is an ordered pair of values; expected verdict = equality of recursively sorted normal forms; exhaustive: every ordered pair of the objects with at most 3 entries over keys {k,l} and 8 values (scalars, objects with duplicate keys in both orders, arrays of different lengths, objects nested under arrays in both member orders); thorough adds sampled pairs of objects with at most 4 entries over 12 values; random: generated values against deep shuffles of themselves and against single mutations (leaf, key, multiplicity, array length/order), shuffled or not; objects with 2..130 entries under one key whose values are nested objects in permuted member order; operands that first went through object operations (sort 0-3 times at every level, remove + re-push, clone) against fresh permutations; wide objects (5..257 entries) where one side repeats a key; the impls for locspan::Meta and Vec<Meta>; checked through UnorderedPartialEq::unordered_eq in both argument orders, Unordered(a)==Unordered(b), as_unordered(), on Value and on Object; distinct by construction / hash",
+			rule: "a case is an ordered pair of values; expected verdict = equality of recursively sorted normal forms; exhaustive: every ordered pair of the objects with at most 3 entries over keys {k,l} and 8 values (scalars, objects with duplicate keys in both orders, arrays of different lengths, objects nested under arrays in both member orders); thorough adds sampled pairs of objects with at most 4 entries over 12 values; random: generated values against deep shuffles of themselves and against single mutations (leaf, key, multiplicity, array length/order), shuffled or not; objects with 2..130 entries under one key whose values are nested objects in permuted member order; operands that first went through object operations (sort / canonicalize 0-3 times at every level, remove + re-push, clone) against fresh permutations and against permutations with a history of their own; wide objects (5..257 entries) where one side repeats a key; the impls for locspan::Meta and Vec<Meta>; checked through UnorderedPartialEq::unordered_eq in both argument orders, Unordered(a)==Unordered(b), as_unordered(), on Value and on Object; distinct by construction / hash",
 			exhaustive: false,
 			assumptions: vec!["normal form: object entries sorted by (key, normal form of value), arrays in order, scalars by spelling".into()],
 			extra: json!({}),
